@@ -1,0 +1,96 @@
+//go:build verif
+
+package xmss
+
+import "encoding/binary"
+
+// Verification hooks (build tag "verif"). They only read or copy state; with the
+// tag off this file is not compiled.
+
+var verifLeafOverride func(leaf []uint8, idx uint32)
+
+// VerifSetLeafOverride installs (or, with nil, removes) a replacement for the
+// WOTS leaf computation: the leaf of index idx becomes whatever f writes.
+func VerifSetLeafOverride(f func(leaf []uint8, idx uint32)) {
+	verifLeafOverride = f
+}
+
+func verifLeaf(leaf []uint8, lTreeAddr *[8]uint32) bool {
+	if verifLeafOverride == nil {
+		return false
+	}
+	verifLeafOverride(leaf[:WOTSParamN], lTreeAddr[4])
+	return true
+}
+
+// VerifSnapshot serialises the complete signer state (secret key incl. index
+// and the whole BDS traversal state).
+func VerifSnapshot(x *XMSS) []byte {
+	var out []byte
+	u32 := func(v uint32) {
+		var b [4]byte
+		binary.BigEndian.PutUint32(b[:], v)
+		out = append(out, b[:]...)
+	}
+	blob := func(b []uint8) {
+		u32(uint32(len(b)))
+		out = append(out, b...)
+	}
+	s := x.bdsState
+	blob(x.sk)
+	blob(s.stack)
+	u32(s.stackOffset)
+	blob(s.stackLevels)
+	blob(s.auth)
+	blob(s.keep)
+	u32(uint32(len(s.treeHash)))
+	for _, t := range s.treeHash {
+		u32(t.h)
+		u32(t.nextIdx)
+		u32(t.stackUsage)
+		u32(uint32(t.completed))
+		blob(t.node)
+	}
+	blob(s.retain)
+	u32(s.nextLeaf)
+	return out
+}
+
+// VerifAuth returns a copy of the current authentication path (h*n bytes).
+func VerifAuth(x *XMSS) []byte {
+	n := x.xmssParams.h * x.xmssParams.n
+	return append([]byte(nil), x.bdsState.auth[:n]...)
+}
+
+// VerifClone returns a deep copy of the key object.
+func VerifClone(x *XMSS) *XMSS {
+	s := x.bdsState
+	c := &BDSState{
+		stack:       append([]uint8(nil), s.stack...),
+		stackOffset: s.stackOffset,
+		stackLevels: append([]uint8(nil), s.stackLevels...),
+		auth:        append([]uint8(nil), s.auth...),
+		keep:        append([]uint8(nil), s.keep...),
+		retain:      append([]uint8(nil), s.retain...),
+		nextLeaf:    s.nextLeaf,
+	}
+	for _, t := range s.treeHash {
+		c.treeHash = append(c.treeHash, &TreeHashInst{
+			h:          t.h,
+			nextIdx:    t.nextIdx,
+			stackUsage: t.stackUsage,
+			completed:  t.completed,
+			node:       append([]uint8(nil), t.node...),
+		})
+	}
+	desc := *x.desc
+	return &XMSS{
+		xmssParams:   NewXMSSParams(x.xmssParams.n, x.xmssParams.h, x.xmssParams.wotsParams.w, x.xmssParams.k),
+		hashFunction: x.hashFunction,
+		height:       x.height,
+		sk:           append([]uint8(nil), x.sk...),
+		seed:         x.seed,
+		bdsState:     c,
+		desc:         &desc,
+	}
+}
